@@ -61,6 +61,11 @@ CLAIMED = {
         "Trusted: go/types and the Go specification. Not decided: the position of the platform-sized uint/int inside their groups (taken from the repository's two tables, which must agree); integer division by zero is Go's panic, contained by Run's recover (C04, not claimed here).",
         "exhaustive cross-check of the generated type-switch table against the checker's weight function and the generator (AST + go/types)",
         "DESIGN.md §4 C14, §3 E7"),
+    "C17": (
+        "The structural clauses on which `a op b` = `fn(a, b)` rests for EVERY occurrence: the type checker and the operator patcher call one resolver with the functions registered for the node's own operator, the configuration's types table and the static types of (left, right) in that order, and neither makes a test before the resolver call that the other does not make (typed-as-overloaded = rewritten); the replacement is a call of the function the resolver returned with [left, right], each once; expr.Compile validates the mapping and returns its error before the first type check, and the validation establishes what the resolver relies on (exists, unambiguous non-nil type, is a function, exactly the parameter count the resolver indexes incl. a method's receiver, exactly one result); on every path from a type check to code generation an operator patch follows that check; the walk that applies the patch reaches every child slot of every node kind through its address (C10's walker rules); ast.Patch keeps type and location. Each clause is a necessary condition: breaking it yields an occurrence that is type-checked as overloaded and executed as built-in (or the reverse), a call with swapped operands, or a mapping that panics instead of being rejected.",
+        "Trusted: go/types, the path enumerator, the rewrite-site and walker analyses shared with C10. NOT decided: that the call evaluates to the function applied to the operands (C01's call rule); the resolver's choice among several candidates for given operand types (first match by identity or interface implementation — a value-level question); the retyping of integer-literal arguments inside call arguments (checker.checkFunc), which can change the operand types an inner operator is resolved with.",
+        "resolver call-site agreement (arguments and guards, path-sensitive) + rewrite-site shape + must-precede / must-follow over the paths of expr.Compile + validation-vs-resolver precondition agreement + walker completeness",
+        "DESIGN.md §4 C17"),
 }
 
 # properties not claimed: id -> reason
@@ -71,7 +76,6 @@ NOT_APPLICABLE = {
     "C03": "type soundness over all environment values of a type needs an abstract interpretation of checker and VM over reflect types that is out of reach; the agreement rules of DESIGN.md §4 C03 were not built. " + _NOT_BUILT,
     "C15": "equality of results between typed and untyped compilation for every environment value is a run-time equivalence; the instruction-selection guard rules of DESIGN.md §4 C15 were not built. " + _NOT_BUILT,
     "C16": "agreement of the checker's name table with reflection-based lookup for every environment type quantifies over all Go types; the member-class agreement rules of DESIGN.md §4 C16 were not built. " + _NOT_BUILT,
-    "C17": "equivalence of an overloaded operator occurrence with the function call for every operand value is behavioural; the patcher/checker agreement rules of DESIGN.md §4 C17 were not built (the traversal part it relies on is decided under C10). " + _NOT_BUILT,
     "C18": "the builtin identities quantify over all arrays and predicates (run-time values); the loop-skeleton clause is partly covered by C05's template verification (scopes, counters, stack balance), but the identities themselves are not decided and nothing is claimed. " + _NOT_BUILT,
 }
 
